@@ -549,7 +549,12 @@ def _wrappers(d):
 DEEP = ("if", "elif", "else", "for", "for-else", "for-rec-else", "with", "block")
 
 
-def nesting_sources(ext):
+def _keep(thin, i):
+    """thin = None (keep all) or (k, r): of the deeper nests keep every k-th, rotated by r (the seed)"""
+    return thin is None or i % thin[0] == thin[1] % thin[0]
+
+
+def nesting_sources(ext, thin=None):
     """root prefix x (statements before) x nest of depth 1..3 x inner statement x (statements after); depth <= 2 over
     all 17 constructs, depth 3 over eight of them; deterministic and complete"""
     inners = ["{% extends 'b' %}", "{% extends y %}{{ z }}"] + (["{% break %}", "{% continue %}"] if ext else [])
@@ -567,7 +572,9 @@ def nesting_sources(ext):
                 yield o + "a" + io, ic + "z" + c
 
     for depth, names in ((1, None), (2, None), (3, DEEP)):
-        for o, c in nests(depth, names):
+        for i, (o, c) in enumerate(nests(depth, names)):
+            if depth > 1 and not _keep(thin, i):
+                continue
             for inner in inners:
                 for pre in (prefixes if depth < 3 else prefixes[:1]):
                     for b, a in (around if depth < 3 else around[:2]):
@@ -579,17 +586,128 @@ def nesting_sources(ext):
             yield pre + "{% if x %}" + inner + "{% endif %}{% if y %}" + inner + "{% else %}" + inner + "{% endif %}"
 
 
-def special_sources(ext):
+# ---------------------------------------------------------------------------------------------------------------
+# statements with EMPTY bodies / argument lists in every position, under root-level, conditional and absent extends
+# ---------------------------------------------------------------------------------------------------------------
+
+EMPTIES = [
+    "{% print %}", "{% print x, %}", "{{ }}", "{% %}", "{# #}", "{##}", "{{ () }}", "{{ f() }}", "{{ [] }}{{ {} }}", "{{ x[] }}", "{{ x|f() }}",
+    "{% call m() %}{% endcall %}", "{% call() m() %}{% endcall %}", "{% call %}{% endcall %}", "{% set e %}{% endset %}",
+    "{% set e | upper %}{% endset %}", "{% set %}", "{% set e = %}", "{% block be %}{% endblock %}", "{% block %}{% endblock %}",
+    "{% block br required %}{% endblock %}", "{% macro me() %}{% endmacro %}", "{% macro %}{% endmacro %}", "{% macro me %}{% endmacro %}",
+    "{% for a in x %}{% endfor %}", "{% for a in x %}{% else %}{% endfor %}", "{% for a in x recursive %}{% else %}{% endfor %}",
+    "{% for a in x if a %}{% endfor %}", "{% for %}{% endfor %}", "{% if x %}{% endif %}", "{% if x %}{% else %}{% endif %}",
+    "{% if x %}{% elif y %}{% else %}{% endif %}", "{% if %}{% endif %}", "{% with %}{% endwith %}", "{% with v = 1 %}{% endwith %}",
+    "{% filter upper %}{% endfilter %}", "{% filter %}{% endfilter %}", "{% autoescape true %}{% endautoescape %}",
+    "{% autoescape %}{% endautoescape %}", "{% raw %}{% endraw %}", "{% include %}", "{% import %}", "{% from 'l' import %}",
+    "{% extends %}", "{% include [] %}", "{% include () %}", "{{ ''}}", "{% set e = () %}{% for a in () %}{% endfor %}",
+]
+EXT_EMPTIES = ["{% trans %}{% endtrans %}", "{% trans %}{% pluralize %}{% endtrans %}", "{% trans n=1 %}{% pluralize %}{% endtrans %}",
+               "{% do %}", "{% do () %}", "{% debug %}", "{% trans trimmed %}  {% endtrans %}", "{% for a in x %}{% break %}{% endfor %}"]
+EXT_PREFIXES = ["{% extends 'a' %}", '{% if x %}{% extends "a" %}{% endif %}', "", "{% if x %}{% extends 'a' %}{% else %}{% extends 'b' %}{% endif %}"]
+
+
+def empty_sources(ext, thin=None):
+    """every empty form x (absent / root-level / conditional / two-way conditional extends) x position: alone at the root, as the
+    ONLY content of each of the 17 body constructs, padded inside them, and as the only content of depth-2 nests of eight"""
+    forms = EMPTIES + (EXT_EMPTIES if ext else [])
+
+    def nests(depth, names, pad):
+        if depth == 0:
+            yield "", ""
+            return
+        for name, o, c in _wrappers(depth):
+            if names is not None and name not in names:
+                continue
+            for io, ic in nests(depth - 1, names, pad):
+                yield o + pad + io, ic + pad + c
+
+    shells = [("", "")] + list(nests(1, None, "")) + list(nests(1, None, "t")) + \
+        [x for i, x in enumerate(nests(2, DEEP, "")) if _keep(thin, i)]
+    for pre in EXT_PREFIXES:
+        for e in forms:
+            for o, c in shells:
+                yield pre + o + e + c
+            yield pre + e + e
+            yield e + pre
+            yield pre + e + "{{ t }}" + e
+
+
+# ---------------------------------------------------------------------------------------------------------------
+# identifiers in Unicode compatibility forms (Python compares identifiers in NFKC form) in every identifier position
+# ---------------------------------------------------------------------------------------------------------------
+
+def _fw(s, which=None):
+    """fullwidth form of the ASCII letters/digits of s (only the characters at the given indices, default the first)"""
+    which = (0,) if which is None else which
+    return "".join(chr(ord(ch) + 0xFEE0) if i in which and ch.isalnum() else ch for i, ch in enumerate(s))
+
+
+COMPAT_BASES = ["kwargs", "varargs", "caller", "loop", "self", "super", "x", "class", "if", "for", "None", "True", "print",
+                "context", "environment", "resolve", "missing", "undefined", "t_1", "l_0_x", "name", "blocks", "range", "fi"]
+COMPAT_NAMES = ([_fw(b) for b in COMPAT_BASES] + [_fw(b, range(len(b))) for b in ("kwargs", "x1", "class")] +
+                ["__ｄebug__", "__debug_＿", "＿_debug__", "x１", "ﬁ", "ﬂag", "aﬁ", "ℌ", "ⅷ", "Ⅰx", "K", "ſelf", "ſuper", "kwargſ", "claſs",
+                 "e\u0301".encode().decode("unicode_escape"), "é", "ª", "µ", "ĳ", "ǆ", "ℯ", "ｅ", "ℓoop", "𝐤wargs", "𝓁oop", "caℓℓer",
+                 "x²", "x\u00b7".encode().decode("unicode_escape"), "ⁿ", "ﬅ", "㎏", "ｌoｏp"])
+
+PAIR_POSITIONS = [
+    "{% macro m(N, M) %}{{ N }}{{ M }}{% endmacro %}{{ m(1, 2) }}", "{% macro m(N=1, M=2) %}{{ N }}{{ M }}{% endmacro %}",
+    "{% macro m(N) %}{{ M }}{{ N }}{% endmacro %}", "{% macro m(a, N=a) %}{{ M }}{% endmacro %}{{ m(N=1) }}{{ m(M=1) }}",
+    "{% call(N, M) m() %}{{ N }}{{ M }}{% endcall %}", "{% call(N) m() %}{{ M }}{% endcall %}", "{{ f(N=1, M=2) }}", "{{ f(N=1) }}{{ f(M=1) }}",
+    "{{ x|f(N=1, M=2) }}", "{{ x is f(N=1, M=2) }}", "{% call m(N=1, M=2) %}{% endcall %}", "{% filter f(N=1, M=2) %}{% endfilter %}",
+    "{% block N %}{% endblock %}{% block M %}{% endblock %}", "{% block N %}{{ self.M() }}{{ self.N() }}{% endblock %}{% block M %}{{ super() }}{% endblock %}",
+    "{% block N %}{% endblock N %}{% block M %}{% endblock M %}", "{% block N %}{% block M %}{% endblock M %}{% endblock N %}",
+    "{% set N = 1 %}{% set M = 2 %}{{ N }}{{ M }}", "{% set N, M = 1, 2 %}{{ N }}{{ M }}", "{% set N %}a{% endset %}{% set M %}b{% endset %}{{ N }}{{ M }}",
+    "{% for N, M in x %}{{ N }}{{ M }}{% endfor %}", "{% for N in x %}{% for M in N %}{{ N }}{{ M }}{{ loop.index }}{% endfor %}{% endfor %}",
+    "{% for N in x recursive %}{{ loop(M) }}{{ N }}{% endfor %}", "{% for N in M %}{{ N }}{% else %}{{ M }}{% endfor %}",
+    "{% with N = 1, M = 2 %}{{ N }}{{ M }}{% endwith %}", "{% with N = 1 %}{% with M = N %}{{ N }}{{ M }}{% endwith %}{% endwith %}",
+    "{% macro N() %}a{% endmacro %}{% macro M() %}b{% endmacro %}{{ N() }}{{ M() }}", "{% import 'l' as N %}{% import 'k' as M %}{{ N.M }}{{ M.N }}",
+    "{% from 'l' import N, M %}{{ N }}{{ M }}", "{% from 'l' import a as N, b as M %}{{ N }}{{ M }}", "{% from 'l' import N as M %}{{ N }}{{ M }}",
+    "{% set ns = namespace() %}{% set ns.N = 1 %}{% set ns.M = 2 %}{{ ns.N }}{{ ns.M }}", "{% set ns = namespace(N=1, M=2) %}{% set ns.N %}a{% endset %}",
+    "{{ x.N }}{{ x.M }}{{ x[N] }}", "{{ x|N }}{{ x|M }}", "{{ x is N }}{{ x is M }}", "{% filter N %}{% endfilter %}{% filter M %}{% endfilter %}",
+    "{% set N = 1 %}{% block b %}{{ M }}{{ N }}{% endblock %}", "{% block b scoped %}{% set N = 1 %}{{ M }}{% endblock %}",
+    "{% macro m() %}{% set N = 1 %}{{ M }}{{ N }}{{ kwargs }}{{ varargs }}{{ caller }}{% endmacro %}", "{% if N %}{% set M = 1 %}{% endif %}{{ N }}{{ M }}",
+    "{% for a in x %}{% set N = a %}{{ M }}{{ loop }}{% endfor %}{{ N }}", "{% set N = M %}{% set M = N %}", "{{ N if M else N }}{{ {N: M}[N] }}",
+    "{% macro m(N) %}{% macro k(M) %}{{ N }}{{ M }}{% endmacro %}{% endmacro %}", "{% macro m(N, M=N) %}{% endmacro %}",
+    "{% for N in x %}{% macro m(M) %}{{ N }}{{ M }}{% endmacro %}{% endfor %}", "{% extends 'a' %}{% block N %}{% endblock %}{% set M = 1 %}",
+    "{% include N %}{% include M ignore missing %}{% import N as M %}", "{% autoescape N %}{{ M }}{% endautoescape %}",
+]
+EXT_PAIR_POSITIONS = [
+    "{% trans N=1, M=2 %}{{ N }}{{ M }}{% endtrans %}", "{% trans %}{{ N }}{{ M }}{% endtrans %}", "{% trans N=1 %}{{ N }}{% pluralize M %}{{ M }}{% endtrans %}",
+    "{% trans N %}{{ N }}{{ M }}{% pluralize %}{{ M }}{% endtrans %}", "{{ _('m', N=1, M=2) }}{{ gettext('%(N)s %(M)s', N=1, M=2) }}",
+    "{% do N.append(M) %}", "{% for N in x %}{% for M in N %}{% break %}{% endfor %}{% continue %}{% endfor %}",
+]
+
+
+def compat_sources(ext, thin=None):
+    """each compatibility-form name with its NFKC form in both roles (and with itself) in every two-name position"""
+    import unicodedata
+
+    pos = PAIR_POSITIONS + (EXT_PAIR_POSITIONS if ext else [])
+    for n in COMPAT_NAMES:
+        k = unicodedata.normalize("NFKC", n)
+        for i, p in enumerate(pos):
+            for a, b in ((n, k), (k, n), (n, n)) if _keep(thin, i) else ((n, k),):
+                yield "".join(a if ch == "N" else b if ch == "M" else ch for ch in p)
+
+
+def special_sources(ext, families=True, thin=None):
     """every name (keywords, soft keywords, Jinja/runtime names, Unicode classes) in every name position, and the
     constant/edge-case list; deterministic, complete"""
-    names = keyword_names() + UNI_NAMES
+    names = keyword_names() + UNI_NAMES + COMPAT_NAMES
     pos = NAME_POSITIONS + (EXT_NAME_POSITIONS if ext else [])
     for p in pos:
         for n in names:
             yield p.replace("N", n).replace("M", "m2") if "N" in p else p
     for s in CONSTANTS:
         yield s
-    for s in nesting_sources(ext):
+    if not families:
+        return
+    for s in nesting_sources(ext, thin):
+        yield s
+    for s in empty_sources(ext, thin):
+        yield s
+    for s in compat_sources(ext, thin):
         yield s
     for a in INTS + FLOATS + STRINGS:
         yield "{{ " + a + " }}"
